@@ -35,7 +35,7 @@ def generate(streams, tier):
         return {"kind": "mn", "world": world, "config": {"factor_order": shuffled(ri, range(len(world["factors"]))), "edge_order": shuffled(ri, world["edges"])},
                 "shared": False, "ops": ops}
     world = W.gen_bn(streams, max_n=5, min_n=1, max_card=3, max_parents=3, max_joint=512, label_mode=r.choice(["str", "str", "short", "int"]),
-                     state_modes=[("default", 2), ("str", 3), ("int_sorted", 1), ("int", 2)])
+                     state_modes=[("default", 2), ("str", 3), ("int_sorted", 1), ("int", 2), ("mixed", 1)])
     n = world["n"]
     if n >= 2 and r.random() < 0.4:
         world["latents"] = sorted(r.sample(range(n), r.randint(1, max(1, n // 2))))
